@@ -70,6 +70,74 @@ Proof.
   all: split_ifs; unwrap; lia.
 Qed.
 
+(* ---- reference-type pools (PoolSpec.demand_ref / demand_paref) ---- *)
+Local Arguments Z.add : simpl never.
+Local Arguments Z.mul : simpl never.
+Local Arguments Z.sub : simpl never.
+Local Arguments Z.div : simpl never.
+Local Arguments Z.modulo : simpl never.
+Local Arguments Z.pow : simpl never.
+Lemma set_parent_pcs_range fr hl cc res : 0 <= hl <= 5 -> 3 <= set_parent_pcs fr hl cc res <= 360.
+Proof.
+  intros Hhl. unfold set_parent_pcs. cbv zeta.
+  change (negb (1 =? 0)) with true. cbv iota.
+  assert (Hc : hl = 0 \/ hl = 1 \/ hl = 2 \/ hl = 3 \/ hl = 4 \/ hl = 5) by lia.
+  assert (Hf : exists f, 24 <= f <= 120 /\ (if (if (if fr >? 1000 then wrapU 32 (Z.shiftr fr 16) else fr) >? 120 then 120 else (if fr >? 1000 then wrapU 32 (Z.shiftr fr 16) else fr)) <? 24 then 24 else (if (if fr >? 1000 then wrapU 32 (Z.shiftr fr 16) else fr) >? 120 then 120 else (if fr >? 1000 then wrapU 32 (Z.shiftr fr 16) else fr))) = f).
+  { eexists; split; [|reflexivity]. set (x := if fr >? 1000 then wrapU 32 (Z.shiftr fr 16) else fr). clearbody x. split_ifs; lia. }
+  destruct Hf as [f [Hf Ef]]. rewrite Ef. clear Ef.
+  rewrite !Z.shiftr_div_pow2 by lia. change (2 ^ 1) with 2.
+  destruct Hc as [-> | [-> | [-> | [-> | [-> | ->]]]]];
+    repeat match goal with
+    | |- context [Z.shiftl ?a (Z.land ?h 31)] => let v := eval vm_compute in (Z.shiftl a (Z.land h 31)) in change (Z.shiftl a (Z.land h 31)) with v
+    | |- context [wrapS 32 (Zpos ?p)] => let v := eval vm_compute in (wrapS 32 (Zpos p)) in change (wrapS 32 (Zpos p)) with v
+    | |- context [wrapU 32 (Zpos ?p)] => let v := eval vm_compute in (wrapU 32 (Zpos p)) in change (wrapU 32 (Zpos p)) with v
+    end.
+  all: rewrite ?Z.shiftl_mul_pow2 by lia; change (2 ^ 1) with 2.
+  all: split_ifs; unwrap; try lia.
+Qed.
+
+Lemma ref_pools_sufficient i l : in_domain i -> pools i = Some l -> demand_paref i <= nth 3 l 0 /\ demand_ref i <= nth 4 l 0.
+Proof.
+  destruct i as [nproc sock ng lp fr hl res lad sbs ph pw tr ov tf scd ip tpl f1 f2 f3].
+  unfold in_domain, demand_paref, demand_ref, lad_window, scd_window, mg. cbn [b_os_processor_count b_target_socket b_num_groups b_logical_processors b_frame_rate b_hierarchical_levels b_input_resolution b_look_ahead_distance b_super_block_size b_max_input_luma_height b_max_input_luma_width b_tile_rows b_enable_overlays b_tf_level b_scene_change_detection b_intra_period_length b_enable_tpl_la b_os_cpu_flags b_os_cpu_flags_to_use b_use_cpu_flags].
+  intros D. decompose [and] D. clear D.
+  unfold pools. cbn [b_os_processor_count b_target_socket b_num_groups b_logical_processors b_frame_rate b_hierarchical_levels b_input_resolution b_look_ahead_distance b_super_block_size b_max_input_luma_height b_max_input_luma_width b_tile_rows b_enable_overlays b_tf_level b_scene_change_detection b_intra_period_length b_enable_tpl_la b_os_cpu_flags b_os_cpu_flags_to_use b_use_cpu_flags].
+  match goal with |- context [set_parent_pcs fr ?h ?c res] => set (cc := c); set (pp := set_parent_pcs fr h cc res) end.
+  assert (Hcc : 0 <= cc < 2 ^ 32).
+  { subst cc. pose proof (wrapU_range 32 (nproc ÷ ng) ltac:(lia)). repeat match goal with |- context [if ?b then _ else _] => destruct b end; lia. }
+  pose proof (set_parent_pcs_range fr hl cc res ltac:(lia)) as Hpp. fold pp in Hpp.
+  clearbody pp. clearbody cc.
+  assert (Hhl : hl = 0 \/ hl = 1 \/ hl = 2 \/ hl = 3 \/ hl = 4 \/ hl = 5) by lia.
+  intros Heq. destruct (pp =? -1); [discriminate|]. injection Heq as <-. cbn [nth].
+  destruct Hhl as [-> | [-> | [-> | [-> | [-> | ->]]]]];
+    repeat match goal with
+    | |- context [Z.shiftl ?a (Z.land ?h 31)] => let v := eval vm_compute in (Z.shiftl a (Z.land h 31)) in change (Z.shiftl a (Z.land h 31)) with v
+    | |- context [wrapS 32 (Zpos ?p)] => let v := eval vm_compute in (wrapS 32 (Zpos p)) in change (wrapS 32 (Zpos p)) with v
+    | |- context [wrapU 32 (Zpos ?p)] => let v := eval vm_compute in (wrapU 32 (Zpos p)) in change (wrapU 32 (Zpos p)) with v
+    | |- context [2 ^ (Zpos ?p)] => let v := eval vm_compute in (2 ^ (Zpos p)) in change (2 ^ (Zpos p)) with v
+    | |- context [2 ^ 0] => change (2 ^ 0) with 1
+    | |- context [Zpos ?p / 2] => let v := eval vm_compute in (Zpos p / 2) in change (Zpos p / 2) with v
+    end.
+  all: remember (wrapU 32 (ip + 1)) as w eqn:Ew;
+       assert (Hw : 0 <= w < 2 ^ 32 /\ exists k, ip + 1 = w + k * 2 ^ 32)
+         by (subst w; unfold wrapU; split; [apply Z.mod_pos_bound; lia | exists ((ip + 1) / 2 ^ 32); pose proof (Z.div_mod (ip + 1) (2 ^ 32) ltac:(lia)); lia]);
+       clear Ew; destruct Hw as [Hw [k Hk]].
+  all: unwrap.
+  all: repeat match goal with
+       | |- context [0 =? 5] => change (0 =? 5) with false
+       | |- context [Zpos ?p =? 5] => let v := eval vm_compute in (Zpos p =? 5) in change (Zpos p =? 5) with v
+       end; cbv iota.
+  all: split.
+  1,3,5,7,9,11: (destruct (ov =? 0) eqn:Eov; cbn [negb]; cbv iota;
+                 match goal with |- ?d <= (if _ then ?M else _) => assert (HM : d <= M); [| set (m := M) in *; clearbody m; split_ifs; unwrap; lia] end;
+                 split_ifs; unwrap; lia).
+  all: rewrite ?Z.shiftr_div_pow2 by lia; change (2 ^ 1) with 2; unwrap; split_ifs; unwrap;
+       repeat match goal with
+              | H : (?a >? ?b) = false |- _ => rewrite Z.gtb_ltb in H; apply Z.ltb_ge in H
+              | H : (?a >? ?b) = true |- _ => rewrite Z.gtb_ltb in H; apply Z.ltb_lt in H
+              end; lia.
+Qed.
+
 Lemma demand_ge_3 i : in_domain i -> 3 <= demand i.
 Proof.
   unfold in_domain, demand, lad_window, scd_window, mg. intros D. decompose [and] D. clear D.
